@@ -39,7 +39,8 @@ func genGV(r *gen.Rand) rb.GV {
 		}
 		return rb.GNilOf("*S1")
 	case 6:
-		t := []string{"*int", "*string", "*float64", "*uint64", "*bool", "*[3]int", "*[2]string", "*Inner"}[r.Intn(8)]
+		// (pointers to slices, maps and pointers included: "pointers" are a supported kind whatever they point to)
+		t := []string{"*int", "*string", "*float64", "*uint64", "*bool", "*[3]int", "*[2]string", "*Inner", "*[]int", "*[]string", "*map[string]int", "**int", "**Inner", "*[]any", "***string"}[r.Intn(15)]
 		return rb.GenOfType(r, t, 1)
 	}
 	return rb.GNil()
